@@ -33,6 +33,7 @@
 
 
 #include "ElemVariable.hpp"
+#include "StylesheetConstructionContext.hpp"
 #include "StylesheetExecutionContext.hpp"
 
 
@@ -576,6 +577,8 @@ VariablesStack::popElementFrame()
     const VariableStackStackType::size_type     nElems = m_stack.size();
     assert(nElems > 0);
 
+    bool    fTemplateFrame = false;
+
     // There is guaranteed to be a context marker at
     // the bottom of the stack, so i should stop at
     // 1.
@@ -585,6 +588,15 @@ VariablesStack::popElementFrame()
 
         // Guarantee that it will be popped when we're done.
         const EnsurePop     theEnsurePop(*this);
+
+        if (theEntry.getType() == StackEntry::eElementFrameMarker)
+        {
+            const ElemTemplateElement* const    theFrameElement = theEntry.getElement();
+
+            fTemplateFrame =
+                theFrameElement != 0 &&
+                theFrameElement->getXSLToken() == StylesheetConstructionContext::ELEMNAME_TEMPLATE;
+        }
 
         if(theEntry.getType() == StackEntry::eContextMarker)
         {
@@ -619,6 +631,25 @@ VariablesStack::popElementFrame()
 #endif
 
             break;
+        }
+    }
+
+    if (fTemplateFrame == true)
+    {
+        // The parameters this template bound were passed for it alone.  The
+        // same entries are offered to the template chosen for the next node
+        // of an xsl:apply-templates, which must not see them unless it
+        // declares them itself.
+        for(VariableStackStackType::size_type i = m_stack.size(); i > 1; --i)
+        {
+            StackEntry&     theEntry = m_stack[i - 1];
+
+            if(theEntry.getType() == StackEntry::eContextMarker)
+            {
+                break;
+            }
+
+            theEntry.deactivate();
         }
     }
 }
